@@ -175,4 +175,23 @@ theorem typed_data_signature (C : Model.Secp.Curve) (hC : C.Lawful) (k : Nat) (h
     simp only [hsig] at this
     exact this
 
+/-! ### non-vacuity: a concrete document on which the theorems' hypotheses hold (evaluated by the kernel) -/
+
+def exDoc : TypedData :=
+  { types := some [("EIP712Domain", some [some { name := "name", type := "string" }]),
+                   ("Mail", some [some { name := "to", type := "address" }, some { name := "n", type := "uint256" }])],
+    primaryType := "Mail",
+    domain := some (.obj ["name"] [.str "x" .fail .fail]),
+    message := some (.obj ["to", "n"] [.str "0x0000000000000000000000000000000000000001" .fail .fail, .num "5" (.int 5) (.int 5)]) }
+
+/-- `encodeTypedDataV4` succeeds on `exDoc` with a 32-byte digest: the `= .ok d` hypotheses of `digest_shape` and
+    `typed_data_signature` are satisfiable -/
+example : (match encodeTypedDataV4 8 exDoc with | .ok d => d.length == 32 | _ => false) = true := by decide +kernel
+
+/-- the same document with the message keys in another order and an extra member is accepted too (the documents
+    `key_order_irrelevant` and `extra_field_ignored` relate) -/
+example : (match encodeTypedDataV4 8 { exDoc with message := some (.obj ["n", "zz", "to"]
+        [.num "5" (.int 5) (.int 5), .bool true, .str "0x0000000000000000000000000000000000000001" .fail .fail]) } with
+    | .ok d => d.length == 32 | _ => false) = true := by decide +kernel
+
 end FFS.Props.C04
